@@ -1,10 +1,25 @@
 import AtreeProofs.MapHeapSpec
 import AtreeProofs.MapInv
 import AtreeProofs.MapLemmas
+import AtreeProofs.Map.EffectsLog
+import AtreeProofs.Map.Example
+import AtreeProofs.Array.EffectsTop
 /-
   C09 (maps) — the storage calls a map operation makes are a COMPLETE account of how its slab
   tree (data slabs, index slabs, external collision-group slabs) changed; emptying a map releases
   every auxiliary slab.  Same shape as C09.lean for arrays.
+
+  Hypothesis added with respect to the first draft of the statements: `MIdsOk m` — the slab IDs of
+  the map (data slabs, index slabs AND external collision-group slabs) are pairwise distinct.
+  `MapInv` does not say so, and without it `set_effects_complete` / `remove_effects_complete` are
+  false (two external groups that share an ID: collapsing one removes the ID that the other still
+  uses — see `Counterexample` below).  `MIdsOk` holds for a new map and is preserved by `set` and
+  `remove` (`new_idsOk`, `set_preserves_idsOk`, `remove_preserves_idsOk`), so it holds in every
+  reachable state.  `allocated_ids_fresh` and `pop_releases_all` do not need it.
+
+  Proofs: `AtreeProofs/Map/Effects*.lean` (generic accounting `MAcct` with owner addresses and ID
+  multiplicities, elements layer, first level of a data slab, repair steps of an index slab,
+  induction over the depth, root fix-up, pop).
 -/
 namespace Atree.C09Map
 open Atree Gen
@@ -14,18 +29,57 @@ def newCreated (c c' : Ctx) : List SlabID := (c'.created.drop c.created.length).
 
 variable {r : Nat}
 
+/-- `newEffects` / `newCreated` are what a run appended (`Log`) -/
+theorem newEffects_of_log {c c' : Ctx} {E : List Eff} {C : List (SlabID × Elem)} (h : Log c c' E C) :
+    c'.eff = c.eff ++ newEffects c c' ∧ newEffects c c' = E ∧ newCreated c c' = C.map (·.1) := by
+  have h1 : newEffects c c' = E := by
+    unfold newEffects; rw [h.eff]; exact List.drop_left
+  have h2 : newCreated c c' = C.map (·.1) := by
+    unfold newCreated; rw [h.created, List.drop_left]
+  exact ⟨by rw [h1]; exact h.eff, h1, h2⟩
+
+/-- A new map has distinct slab IDs. -/
+theorem new_idsOk (addr ty : Nat) (seedOf : SlabID → Nat) (c : Ctx) :
+    MIdsOk (OMap.new (r := r) addr ty seedOf c).1 := by
+  simp [MIdsOk, OMap.new, mslabs_zero, MDataSlab.groupSlabs]
+
 theorem set_effects_complete (T : Nat) (hT : legalThreshold T = true) (D : DigestFn (r + 1)) (cfg : MCfg) (m : OMap r)
-    (hcfg : CfgOk cfg T m) (h : MapInv T D m) (k : MKey) (hk : KeyOk T (r + 1) D k)
+    (hcfg : CfgOk cfg T m) (h : MapInv T D m) (hids : MIdsOk m) (k : MKey) (hk : KeyOk T (r + 1) D k)
     (v : Elem) (hv : ValueOkM v) (c : Ctx) (hc : CtxOk m c)
     (old : Option Elem) (m' : OMap r) (c' : Ctx) (hr : m.set cfg k v c = .ok (old, m', c')) :
     c'.eff = c.eff ++ newEffects c c' ∧ MEffectsComplete m m' (newEffects c c') (newCreated c c') := by
-  sorry
+  obtain ⟨E, C, hlog, hacct, hroot, hrid⟩ := omap_set_acct hT hcfg h hk hv c hc hids hr
+  obtain ⟨h1, h2, h3⟩ := newEffects_of_log hlog.toLog
+  refine ⟨h1, ?_⟩
+  rw [h2, h3]
+  exact mEffectsComplete_of_acct hacct hids hrid hroot
+
+/-- `set` preserves the distinctness of the slab IDs. -/
+theorem set_preserves_idsOk (T : Nat) (hT : legalThreshold T = true) (D : DigestFn (r + 1)) (cfg : MCfg) (m : OMap r)
+    (hcfg : CfgOk cfg T m) (h : MapInv T D m) (hids : MIdsOk m) (k : MKey) (hk : KeyOk T (r + 1) D k)
+    (v : Elem) (hv : ValueOkM v) (c : Ctx) (hc : CtxOk m c)
+    (old : Option Elem) (m' : OMap r) (c' : Ctx) (hr : m.set cfg k v c = .ok (old, m', c')) : MIdsOk m' := by
+  obtain ⟨E, C, _, hacct, _⟩ := omap_set_acct hT hcfg h hk hv c hc hids hr
+  exact hacct.nodup hids
 
 theorem remove_effects_complete (T : Nat) (hT : legalThreshold T = true) (D : DigestFn (r + 1)) (cfg : MCfg) (m : OMap r)
-    (hcfg : CfgOk cfg T m) (h : MapInv T D m) (k : MKey) (hk : KeyOk T (r + 1) D k) (c : Ctx) (hc : CtxOk m c)
+    (hcfg : CfgOk cfg T m) (h : MapInv T D m) (hids : MIdsOk m) (k : MKey) (hk : KeyOk T (r + 1) D k) (c : Ctx)
+    (hc : CtxOk m c)
     (k0 : MKey) (v0 : Elem) (m' : OMap r) (c' : Ctx) (hr : m.remove cfg k c = .ok (k0, v0, m', c')) :
     c'.eff = c.eff ++ newEffects c c' ∧ MEffectsComplete m m' (newEffects c c') (newCreated c c') := by
-  sorry
+  obtain ⟨E, C, hlog, hacct, hroot, hrid⟩ := omap_remove_acct hT hcfg h hk c hc hids hr
+  obtain ⟨h1, h2, h3⟩ := newEffects_of_log hlog.toLog
+  refine ⟨h1, ?_⟩
+  rw [h2, h3]
+  exact mEffectsComplete_of_acct hacct hids hrid hroot
+
+/-- `remove` preserves the distinctness of the slab IDs. -/
+theorem remove_preserves_idsOk (T : Nat) (hT : legalThreshold T = true) (D : DigestFn (r + 1)) (cfg : MCfg) (m : OMap r)
+    (hcfg : CfgOk cfg T m) (h : MapInv T D m) (hids : MIdsOk m) (k : MKey) (hk : KeyOk T (r + 1) D k) (c : Ctx)
+    (hc : CtxOk m c)
+    (k0 : MKey) (v0 : Elem) (m' : OMap r) (c' : Ctx) (hr : m.remove cfg k c = .ok (k0, v0, m', c')) : MIdsOk m' := by
+  obtain ⟨E, C, _, hacct, _⟩ := omap_remove_acct hT hcfg h hk c hc hids hr
+  exact hacct.nodup hids
 
 /-- Emptying a map releases every slab except the root (children of index slabs and external
     collision groups included), and the root is rewritten. -/
@@ -35,7 +89,48 @@ theorem pop_releases_all (T : Nat) (hT : legalThreshold T = true) (D : DigestFn 
     MEffectsComplete m res.2.1 (newEffects c res.2.2) [] ∧
     (MTree.slabs res.2.1.d res.2.1.root).map (·.1) = [m.rootID] ∧
     ∀ id ∈ (MTree.slabs m.d m.root).map (·.1), id ≠ m.rootID → lastAction (newEffects c res.2.2) id = some false := by
-  sorry
+  intro res
+  have _ := hT
+  have _ := hc
+  obtain ⟨E, heff, hE1, hE2⟩ := omap_pop_log m c h.standalone
+  have hnew : newEffects c res.2.2 = E ++ [.store m.rootID] := by
+    unfold newEffects
+    show (m.popIterate c).2.2.eff.drop _ = _
+    rw [heff, List.append_assoc]; exact List.drop_left
+  have hids' : AList.keys (MTree.slabs res.2.1.d res.2.1.root) = [m.rootID] := rfl
+  have hla : ∀ id, lastAction (newEffects c res.2.2) id
+      = if m.rootID = id then some true else lastAction E id := by
+    intro id; rw [hnew]; exact lastAction_concat_store E m.rootID id
+  have hgone : ∀ id ∈ AList.keys (MTree.slabs m.d m.root), id ≠ m.rootID →
+      lastAction (newEffects c res.2.2) id = some false := by
+    intro id hid hne
+    rw [hla, if_neg (fun h => hne h.symm)]
+    refine (lastAction_only_removes E hE1 id).1.2 (hE2 id ?_)
+    rw [mslabs_eq, keys_cons'] at hid
+    rcases List.mem_cons.1 hid with h1 | h1
+    · exact absurd h1 hne
+    · exact h1
+  refine ⟨⟨?_, ?_, ?_, ?_⟩, hids', hgone⟩
+  · intro id hsome _
+    rw [mslabAt_isSome, hids', List.mem_singleton] at hsome
+    rw [hla, if_pos hsome.symm]
+  · intro id h1 h2
+    rw [mslabAt_isSome] at h1
+    rw [mslabAt_isNone, hids', List.mem_singleton] at h2
+    exact hgone id h1 h2
+  · intro id h1
+    left
+    rw [mslabAt_isSome, hids', List.mem_singleton]
+    rw [hla] at h1
+    split at h1
+    · rename_i heq; exact heq.symm
+    · exact absurd h1 (lastAction_only_removes E hE1 id).2
+  · intro id h1
+    rw [mslabAt_isNone, hids', List.mem_singleton]
+    rw [hla] at h1
+    split at h1
+    · cases h1
+    · rename_i hne; exact fun h => hne h.symm
 
 /-- Slab IDs handed out during a set are fresh. -/
 theorem allocated_ids_fresh (T : Nat) (hT : legalThreshold T = true) (D : DigestFn (r + 1)) (cfg : MCfg) (m : OMap r)
@@ -43,6 +138,209 @@ theorem allocated_ids_fresh (T : Nat) (hT : legalThreshold T = true) (D : Digest
     (v : Elem) (hv : ValueOkM v) (c : Ctx) (hc : CtxOk m c)
     (old : Option Elem) (m' : OMap r) (c' : Ctx) (hr : m.set cfg k v c = .ok (old, m', c')) :
     ∀ addr id, Eff.alloc addr id ∈ newEffects c c' → id ∉ (MTree.slabs m.d m.root).map (·.1) ∧ c.ctr < id.idx ∧ id.idx ≤ c'.ctr := by
-  sorry
+  obtain ⟨_, E, heff, hall⟩ := omap_set_alog hT hcfg h hk hv c hr
+  have hE : newEffects c c' = E := by
+    unfold newEffects; rw [heff]; exact List.drop_left
+  rw [hE]
+  intro addr id hmem
+  obtain ⟨ha, h3, h4⟩ := hall addr id hmem
+  refine ⟨fun hin => ?_, h3, h4⟩
+  have := old_of_ctxOk hc id hin ha
+  omega
+
+/-! ### Non-vacuity
+
+Concrete runs of the model on the example map of `AtreeProofs/Map/Example.lean` (`r = 1`, T = 256,
+owner address 7): what `newEffects` is (by `decide`), and `MEffectsComplete` for these runs,
+obtained from the theorems above (their hypotheses are satisfiable: `Good`, `MIdsOk` by `decide`). -/
+section NonVacuity
+open MapExample
+
+/-- seven insertions into the root data slab `7.1`: an inline group under digest 1, a single
+    element under digest 2, and an inline group with the colliding keys 311, 312, 313 under digest 3 -/
+def s7 : OMap 1 × Ctx :=
+  let s := st0
+  let s := stepSet cfg2 s (key 211) (val 1)
+  let s := stepSet cfg2 s (key 111) (val 2)
+  let s := stepSet cfg2 s (key 112) (val 3)
+  let s := stepSet cfg2 s (key 121) (val 4)
+  let s := stepSet cfg2 s (key 311) (val 5)
+  let s := stepSet cfg2 s (key 312) (val 6)
+  stepSet cfg2 s (key 313) (val 7)
+
+theorem s7_good : Good 256 D2 cfg2 s7 := by
+  unfold s7
+  simp only
+  iterate 7 refine Good.set legal256 ?_ (key_ok _) (val_ok _)
+  exact Good.new legal256 rfl rfl _ _ _
+
+example : kinds s7.1 = ["inline", "single", "inline"] := by decide
+example : (MTree.slabs s7.1.d s7.1.root).map (·.1) = [⟨7, 1⟩] := by decide
+theorem s7_ids : MIdsOk s7.1 := by decide
+
+/-- the fourth colliding key makes the inline group under digest 3 too large: it is EXPORTED to a
+    new external collision-group slab `7.2` (allocated, stored), and the data slab is stored -/
+def s8 : OMap 1 × Ctx := stepSet cfg2 s7 (key 314) (val 8)
+theorem step8 : s7.1.set cfg2 (key 314) (val 8) s7.2 = .ok (none, s8.1, s8.2) := by rfl
+theorem s8_good : Good 256 D2 cfg2 s8 := Good.set legal256 s7_good (key_ok _) (val_ok _)
+
+example : kinds s8.1 = ["inline", "single", "external"] := by decide
+example : (MTree.slabs s8.1.d s8.1.root).map (·.1) = [⟨7, 1⟩, ⟨7, 2⟩] := by decide
+example : newEffects s7.2 s8.2 = [.alloc 7 ⟨7, 2⟩, .store ⟨7, 2⟩, .store ⟨7, 1⟩] := by decide
+example : newCreated s7.2 s8.2 = [] := by decide
+example : [⟨7, 1⟩, ⟨7, 2⟩].map (lastAction (newEffects s7.2 s8.2)) = [some true, some true] := by decide
+example : MEffectsComplete s7.1 s8.1 (newEffects s7.2 s8.2) (newCreated s7.2 s8.2) :=
+  (set_effects_complete 256 legal256 D2 cfg2 s7.1 s7_good.cfgok s7_good.inv s7_ids (key 314) (key_ok _)
+    (val 8) (val_ok _) s7.2 s7_good.ctx none s8.1 s8.2 step8).2
+example : ∀ addr id, Eff.alloc addr id ∈ newEffects s7.2 s8.2 →
+    id ∉ (MTree.slabs s7.1.d s7.1.root).map (·.1) ∧ s7.2.ctr < id.idx ∧ id.idx ≤ s8.2.ctr :=
+  allocated_ids_fresh 256 legal256 D2 cfg2 s7.1 s7_good.cfgok s7_good.inv (key 314) (key_ok _)
+    (val 8) (val_ok _) s7.2 s7_good.ctx none s8.1 s8.2 step8
+theorem s8_ids : MIdsOk s8.1 :=
+  set_preserves_idsOk 256 legal256 D2 cfg2 s7.1 s7_good.cfgok s7_good.inv s7_ids (key 314) (key_ok _)
+    (val 8) (val_ok _) s7.2 s7_good.ctx none s8.1 s8.2 step8
+
+/-- a set that goes through the external group rewrites the group slab and the data slab -/
+def s9 : OMap 1 × Ctx := stepSet cfg2 s8 (key 313) (val 70)
+theorem step9 : s8.1.set cfg2 (key 313) (val 70) s8.2 = .ok (some (val 7), s9.1, s9.2) := by rfl
+example : newEffects s8.2 s9.2 = [.store ⟨7, 2⟩, .store ⟨7, 1⟩] := by decide
+example : MEffectsComplete s8.1 s9.1 (newEffects s8.2 s9.2) (newCreated s8.2 s9.2) :=
+  (set_effects_complete 256 legal256 D2 cfg2 s8.1 s8_good.cfgok s8_good.inv s8_ids (key 313) (key_ok _)
+    (val 70) (val_ok _) s8.2 s8_good.ctx _ s9.1 s9.2 step9).2
+
+/-- removing three of the four colliding keys: the last removal leaves a single element in the
+    external group, which COLLAPSES — the group slab `7.2` is stored one last time and removed -/
+def r2 : OMap 1 × Ctx := stepRemove cfg2 (stepRemove cfg2 s8 (key 314)) (key 313)
+theorem r2_good : Good 256 D2 cfg2 r2 :=
+  Good.remove legal256 (Good.remove legal256 s8_good (key_ok _)) (key_ok _)
+theorem r2_ids : MIdsOk r2.1 := by decide
+def r3 : OMap 1 × Ctx := stepRemove cfg2 r2 (key 312)
+theorem stepR : r2.1.remove cfg2 (key 312) r2.2 = .ok (key 312, val 6, r3.1, r3.2) := by rfl
+
+example : kinds r2.1 = ["inline", "single", "external"] := by decide
+example : kinds r3.1 = ["inline", "single", "single"] := by decide
+example : (MTree.slabs r3.1.d r3.1.root).map (·.1) = [⟨7, 1⟩] := by decide
+example : newEffects r2.2 r3.2 = [.store ⟨7, 2⟩, .remove ⟨7, 2⟩, .store ⟨7, 1⟩] := by decide
+example : [⟨7, 1⟩, ⟨7, 2⟩].map (lastAction (newEffects r2.2 r3.2)) = [some true, some false] := by decide
+example : MEffectsComplete r2.1 r3.1 (newEffects r2.2 r3.2) (newCreated r2.2 r3.2) :=
+  (remove_effects_complete 256 legal256 D2 cfg2 r2.1 r2_good.cfgok r2_good.inv r2_ids (key 312) (key_ok _)
+    r2.2 r2_good.ctx _ _ r3.1 r3.2 stepR).2
+
+/-- the large example map `run` (index slab root `7.1` over the data slabs `7.3` and `7.4`, one
+    external group `7.2` referenced from `7.3`): emptying it removes all of them and rewrites the root -/
+example : (MTree.slabs run.1.d run.1.root).map (·.1) = [⟨7, 1⟩, ⟨7, 3⟩, ⟨7, 2⟩, ⟨7, 4⟩] := by decide
+example : MIdsOk run.1 := by decide
+example : newEffects run.2 (run.1.popIterate run.2).2.2
+    = [.remove ⟨7, 4⟩, .remove ⟨7, 2⟩, .remove ⟨7, 3⟩, .store ⟨7, 1⟩] := by decide
+example : MEffectsComplete run.1 (run.1.popIterate run.2).2.1 (newEffects run.2 (run.1.popIterate run.2).2.2) [] :=
+  (pop_releases_all 256 legal256 D2 run.1 run_good.inv run.2 run_good.ctx).1
+
+end NonVacuity
+
+/-! ### Why `MIdsOk` is needed
+
+`MapInv` and `CtxOk` do not exclude two external collision groups with the same slab ID.  Such a
+map is built here by running the model with a reset allocation counter (so that the second export
+re-issues the ID `7.2`); it satisfies `MapInv`, `CtxOk` (for a large enough counter) and `CfgOk`.
+Collapsing one of the two groups removes slab `7.2` although the other group still lives there:
+`remove_effects_complete` WITHOUT the hypothesis `MIdsOk` is false. -/
+section Counterexample
+open MapExample
+
+/-- `OMap.set` preserves `MapInv` whatever the allocation counter is (the proof of `OMap.set_spec`
+    without its `CtxOk` part) -/
+theorem set_inv_any_ctx {T : Nat} (hT : legalThreshold T = true) {D : DigestFn (r + 1)} {cfg : MCfg} {m : OMap r}
+    (hcfg : CfgOk cfg T m) (h : MapInv T D m) {k : MKey} (hk : KeyOk T (r + 1) D k) {v : Elem} (hv : ValueOkM v)
+    (c : Ctx) : MapInv T D (stepSet cfg (m, c) k v).1 ∧ (stepSet cfg (m, c) k v).1.rootID = m.rootID := by
+  have hc' : CfgFor cfg T (r + 1) := ⟨hcfg.1, hcfg.2.1⟩
+  obtain ⟨d, root, ty, cnt, seed⟩ := m
+  obtain ⟨h1, h2⟩ := MTree.set_spec hT hc' hk hv d true root c h.tree
+  unfold stepSet
+  by_cases hl : TLimited cfg d root k
+  · have := h1 hl
+    simp only [OMap.set, this, bind, Except.bind]
+    exact ⟨h, trivial⟩
+  · obtain ⟨old, root', c1, heq, hp⟩ := h2 hl
+    have hinl : treeInl d root' = false := by
+      rw [hp.inl, ← isInlined_eq d root ty cnt seed]; exact h.standalone
+    have hle : (MTree.hdr d root').size ≤ maxThr T + slack1 T d := by
+      have := hp.size_le; have := MTreeInv.le_max d true root h.tree; omega
+    have hchain : ChainTo (MTree.leaves d root') SlabID.undef :=
+      hp.leaves.2.2.2 _ ((mLeafChain_iff _).mp h.chain)
+    obtain ⟨m3, c3, heq3, hpost⟩ := root_fixup hT d root' ty (if old.isNone then cnt + 1 else cnt) seed c1
+      hp.sinv hinl hle hchain
+    have hT' : cfg.T = T := hcfg.1
+    have hset : OMap.set cfg (⟨d, root, ty, cnt, seed⟩ : OMap r) k v c = .ok (old, m3, c3) := by
+      simp only [OMap.set, heq, bind, Except.bind, pure, Except.pure, hT']
+      simp only [heq3]
+    rw [hset]
+    have htl : m3.toList = MTree.toList d root' := hpost.toList
+    have hcnt : cnt = (MTree.toList d root).length := h.count_eq
+    have hlen := hp.eff.length
+    refine ⟨MapInv.of_rootPost hpost ?_, by rw [hpost.rootID]; exact hp.id_eq⟩
+    rw [hpost.count, htl, hlen]
+    show (if old.isNone then cnt + 1 else cnt) = _
+    cases old <;> simp [hcnt]
+
+/-- `s8` (external group `7.2` under digest 3) plus three colliding keys under digest 5 -/
+def b0 : OMap 1 × Ctx :=
+  stepSet cfg2 (stepSet cfg2 (stepSet cfg2 s8 (key 511) (val 21)) (key 512) (val 22)) (key 513) (val 23)
+theorem b0_good : Good 256 D2 cfg2 b0 := by
+  unfold b0
+  iterate 3 refine Good.set legal256 ?_ (key_ok _) (val_ok _)
+  exact s8_good
+
+/-- the fourth colliding key under digest 5, inserted with the allocation counter RESET to 1: the
+    exported group gets the ID `7.2` a second time -/
+def b1 : OMap 1 := (stepSet cfg2 (b0.1, { ctr := 1, eff := [], created := [] }) (key 514) (val 24)).1
+def c10 : Ctx := { ctr := 10, eff := [], created := [] }
+
+example : kinds b1 = ["inline", "single", "external", "external"] := by decide
+example : (MTree.slabs b1.d b1.root).map (·.1) = [⟨7, 1⟩, ⟨7, 2⟩, ⟨7, 2⟩] := by decide
+example : ¬ MIdsOk b1 := by decide
+
+theorem b1_good : Good 256 D2 cfg2 (b1, c10) := by
+  obtain ⟨h1, h2⟩ := set_inv_any_ctx legal256 b0_good.cfgok b0_good.inv (key_ok 514) (val_ok 24)
+    { ctr := 1, eff := [], created := [] }
+  refine ⟨h1, ?_, b0_good.cfgok.1, b0_good.cfgok.2.1, ?_⟩
+  · intro id hid _
+    have : id ∈ [(⟨7, 1⟩ : SlabID), ⟨7, 2⟩, ⟨7, 2⟩] := by
+      have e : CtxOk.mapSlabIds b1.d b1.root = [(⟨7, 1⟩ : SlabID), ⟨7, 2⟩, ⟨7, 2⟩] := by decide
+      rw [← e]; exact hid
+    simp only [List.mem_cons, List.not_mem_nil, or_false] at this
+    rcases this with rfl | rfl | rfl <;> decide
+  · rw [b0_good.cfgok.2.2]
+    show b0.1.rootID.addr = b1.rootID.addr
+    rw [show b1.rootID = b0.1.rootID from h2]
+
+/-- two of the four keys of the second group are removed … -/
+def b3 : OMap 1 × Ctx := stepRemove cfg2 (stepRemove cfg2 (b1, c10) (key 514)) (key 513)
+theorem b3_good : Good 256 D2 cfg2 b3 :=
+  Good.remove legal256 (Good.remove legal256 b1_good (key_ok _)) (key_ok _)
+
+/-- … and the third removal collapses the second group: slab `7.2` is removed -/
+def b4 : OMap 1 × Ctx := stepRemove cfg2 b3 (key 512)
+theorem stepB : b3.1.remove cfg2 (key 512) b3.2 = .ok (key 512, val 22, b4.1, b4.2) := by rfl
+
+example : kinds b3.1 = ["inline", "single", "external", "external"] := by decide
+example : kinds b4.1 = ["inline", "single", "external", "single"] := by decide
+example : newEffects b3.2 b4.2 = [.store ⟨7, 2⟩, .remove ⟨7, 2⟩, .store ⟨7, 1⟩] := by decide
+/-- … although the first group still lives under that ID -/
+example : (b4.1.slabAt ⟨7, 2⟩).isSome = true := by decide
+
+/-- `remove_effects_complete` without `MIdsOk` is false: all its other hypotheses hold for this
+    removal, its conclusion does not (`removed_not_in_tree` fails for slab `7.2`). -/
+theorem remove_effects_complete_needs_idsOk :
+    ∃ (m : OMap 1) (c : Ctx) (k k0 : MKey) (v0 : Elem) (m' : OMap 1) (c' : Ctx),
+      CfgOk cfg2 256 m ∧ MapInv 256 D2 m ∧ KeyOk 256 2 D2 k ∧ CtxOk m c ∧
+      m.remove cfg2 k c = .ok (k0, v0, m', c') ∧
+      ¬ MEffectsComplete m m' (newEffects c c') (newCreated c c') := by
+  refine ⟨b3.1, b3.2, key 512, key 512, val 22, b4.1, b4.2, b3_good.cfgok, b3_good.inv, key_ok _, b3_good.ctx,
+    stepB, ?_⟩
+  intro h
+  have h1 := h.removed_not_in_tree ⟨7, 2⟩ (by decide)
+  exact absurd h1 (by decide)
+
+end Counterexample
 
 end Atree.C09Map
